@@ -158,6 +158,15 @@ def receiver_body(mido, port, n, how='receive', view=note_view):
                     if m is None:
                         mido.ports.sleep()
                         continue
+                elif how == 'iter_pending_first':
+                    # leave the iteration after the first message: the rest
+                    # must still be there for the next call
+                    m = None
+                    for m in port.iter_pending():
+                        break
+                    if m is None:
+                        mido.ports.sleep()
+                        continue
                 else:
                     ms = list(port.iter_pending())
                     if not ms:
@@ -294,6 +303,23 @@ def programs(mido, size):
             return bodies, lambda: {'sent': sent, 'keep': (port, a, b)}
         return make
 
+    def p_multi_order():
+        # one sender, three messages through one sub-port; two receivers on
+        # the MultiPort: each must see the sender's messages in order
+        def make():
+            wa, wb = [], []
+            a = ByteDouble('a', wire_out=wa, wire_in=wa)
+            b = ByteDouble('b', wire_out=wb, wire_in=wb)
+            port = mido.ports.MultiPort([a, b])
+            for x in (a, b, port):
+                assert_coop(x)
+            mido.ports.random.perm = None
+            sent = []
+            bodies = [sender_body(mido, a, 0, 3, sent),
+                      receiver_body(mido, port, 2), receiver_body(mido, port, 1)]
+            return bodies, lambda: {'sent': sent, 'keep': (port, a, b)}
+        return make
+
     def p_multi_send():
         def make():
             wa, wb = [], []
@@ -417,6 +443,8 @@ def programs(mido, size):
         'P3b-ioport-wrapper-iter_pending': p_ioport('iter_pending'),
         'P4-multiport-receive': p_multi(None),
         'P4c-multiport-send': p_multi_send(),
+        'P4d-multiport-one-sender-two-receivers': p_multi_order(),
+        'P1d-echo-iter_pending-first-only': p_echo('iter_pending_first'),
         'P5-parser-queue': p_queue(),
         'P5b-parser-queue-batch': p_queue(batch=True),
         'P6-echo-same-object-resent': p_reuse(),
@@ -424,6 +452,9 @@ def programs(mido, size):
         'P7-two-independent-ports': p_two_ports(),
     })
     return progs
+
+
+SIZE2 = ('P1', 'P5-')
 
 
 def step_budget(name):
@@ -500,7 +531,7 @@ def judge(name, exe, obs, choices, violation, outcomes):
 
 
 def _worker(args):
-    name, size, bound, root, budget, fbound = args
+    key, name, size, bound, root, budget, fbound = args
     mido = common.import_mido()
     install(mido)
     progs = programs(mido, size)
@@ -517,8 +548,8 @@ def _worker(args):
                    root=root, stats=stats, max_execs=budget,
                    free_bound=fbound, step_budget=step_budget(name))
     except es.HarnessLost as e:
-        return ('lost', name, repr(e), stats, [], 0)
-    return ('ok', name, None, stats, viols, len(outcomes), outcomes)
+        return ('lost', key, repr(e), stats, [], 0)
+    return ('ok', key, None, stats, viols, len(outcomes), outcomes)
 
 
 def run():
@@ -532,22 +563,32 @@ def run():
     # thorough: the same small programs (plus the shuffled MultiPort variant)
     # with one more preemption and one more free-switch deviation; larger
     # programs made the bound-2 tree exceed two hours
-    size = 1
     bounds = {}
-    progs = programs(mido, size)
+    meta = {}
     jobs = []
     per_prog = {}
-    for name in progs:
+    plan = [(n, n, 1) for n in programs(mido, 1)]
+    if thorough:
+        # two sends per sender for the programs whose size-2 tree at the
+        # quick bounds stays tractable
+        plan += [(f'{n}@2', n, 2) for n in programs(mido, 2)
+                 if n.startswith(SIZE2)]
+    fb_default = int(os.environ.get('VERIF_C10_FBOUND', 3 if thorough else 2))
+    for key, pname, size in plan:
+        progs = programs(mido, size)
         # thorough: one more preemption where the tree stays tractable
         # (measured: the P2/P3/P4/P7 trees exceed 10 CPU-minutes each at
         # bound 2), one more free-switch deviation everywhere
-        bound = 2 if thorough and name.startswith(('P1', 'P5', 'P6')) else 1
-        if name.startswith('P5'):
+        bound = 2 if thorough and size == 1 and pname.startswith(
+            ('P1', 'P5', 'P6')) else 1
+        if pname.startswith('P5'):
             bound += 1
-        if name.startswith('P8'):
+        if pname.startswith('P8'):
             bound = 0       # long programs: switches at blocking points only
-        bounds[name] = bound
-        fbound = int(os.environ.get('VERIF_C10_FBOUND', 3 if thorough else 2))
+        fbound = fb_default if size == 1 else 2
+        bounds[key] = bound
+        meta[key] = (pname, size, fbound)
+        name = pname
         # determinism obligation: the default schedule twice, same observation
         watched = watched_files(mido, name)
         e1, o1 = es.run_schedule(progs[name], [], watched, step_budget(name))
@@ -557,7 +598,8 @@ def run():
             print(f'HARNESS-ERROR: {name} is not deterministic under the '
                   f'default schedule')
             rep._vacuous = True
-        per_prog[name] = {'points_default': len(e1.points)}
+        per_prog[key] = {'points_default': len(e1.points),
+                         'sends_per_sender': size}
         out = set()
         judge(name, e1, o1, list(e1.choices), rep.violation, out)
         rep.add('schedules')
@@ -570,11 +612,11 @@ def run():
                     continue
                 if not p.running_enabled and fcost + 1 > fbound:
                     continue
-                jobs.append((name, size, bound, e1.choices[:i] + [alt],
+                jobs.append((key, name, size, bound, e1.choices[:i] + [alt],
                              JOB_BUDGET, fbound))
     ctx = mp.get_context('fork')
     all_outcomes = {}
-    real_samples = [{'program': j[0], 'schedule_prefix': j[3],
+    real_samples = [{'program': j[0], 'schedule_prefix': j[4],
                      'meaning': 'index of the chosen thread among the enabled '
                                 'ones at each scheduling point (0 = default)'}
                     for j in jobs[::max(1, len(jobs) // 6)]]
@@ -591,8 +633,8 @@ def run():
                 continue
             stats, viols = r[3], r[4]
             for pre in stats.get('leftover', ()):
-                nxt.append((name, size, bounds[name], pre, JOB_BUDGET,
-                            3 if thorough else 2))
+                nxt.append((name, meta[name][0], meta[name][1], bounds[name],
+                            pre, JOB_BUDGET, meta[name][2]))
             rep.add('schedules', stats.get('schedules', 0))
             rep.add('lock_waits', stats.get('lock_waits', 0))
             d = per_prog[name]
@@ -609,7 +651,7 @@ def run():
     rep.coverage['work_sharing_rounds'] = rounds
     for name, d in per_prog.items():
         d['preemption_bound'] = bounds[name]
-        d['free_switch_deviation_bound'] = 3 if thorough else 2
+        d['free_switch_deviation_bound'] = meta[name][2]
         d['distinct_outcomes'] = len(all_outcomes.get(name, ()))
     rep.coverage['programs_detail'] = per_prog
     n = rep.coverage['schedules']
@@ -625,7 +667,8 @@ def run():
     for smp in real_samples[:6]:
         rep.sample(smp)
     rep.coverage['rule'] = (
-        'programs: ' + ', '.join(progs) + f' ({size} send(s) per sender); for '
+        'programs: ' + ', '.join(per_prog) + ' (one send per sender; "@2": '
+        'two sends per sender); for '
         'each, every schedule with at most the stated number of preemptions '
         '(switching away from a thread that could continue) and at most 2 '
         '(3 thorough) non-default choices at free switch points (the running '
